@@ -660,7 +660,7 @@ func TestVerif_C25(t *testing.T) {
 			if harnessPanic(val, stack) {
 				break
 			}
-			r.Violation("C25|direct|panic "+verifkit.PanicSite(stack)+"|"+c.kind, fmt.Sprintf("distributeKernelMintByWorks panicked: %v", val), c.witness(mem, nil))
+			r.Violation("C25|direct|panic "+verifkit.PanicSite(stack), fmt.Sprintf("distributeKernelMintByWorks panicked: %v", val), c.witness(mem, nil))
 			continue
 		}
 		if err != nil {
@@ -711,7 +711,7 @@ func TestVerif_C25(t *testing.T) {
 			if harnessPanic(val, stack) {
 				break
 			}
-			r.Violation("C25|tx|panic "+verifkit.PanicSite(stack)+"|"+c.kind, fmt.Sprintf("buildUniversalMintTransaction panicked: %v", val), c.witness(mem, nil))
+			r.Violation("C25|tx|panic "+verifkit.PanicSite(stack), fmt.Sprintf("buildUniversalMintTransaction panicked: %v", val), c.witness(mem, nil))
 			continue
 		}
 		if ver == nil {
